@@ -722,8 +722,12 @@ fn anneal<G: GraphLike + 'static>(a: &AG, g: &G, s: u64, p: Params, ctor: u8, st
     c.anneals += 1;
     let init_nodes = nodes_json(&start_tree);
     let g3 = g.clone();
-    let r = with_watchdog(60, move || {
-        guarded(move || {
+    // RE-USE of the annealer object (seed C18_f): run() takes &mut self, so a second run() - here after shortening the run
+    // through the setter - is ordinary use and must again return a valid tree no wider than the starting tree. It is
+    // logged as a second `anneal` event (field rerun) with the same starting tree and judged by the same predicates.
+    let rerun_iters = p.iters.min(40);
+    let r = with_watchdog(90, move || {
+        let one = |an: &mut RankwidthAnnealer<SmallRng, G>| {
             let mut out = an.run();
             let valid = out.is_valid_for_graph(&g3);
             let nodes = nodes_json(&out);
@@ -731,21 +735,44 @@ fn anneal<G: GraphLike + 'static>(a: &AG, g: &G, s: u64, p: Params, ctor: u8, st
             let w = out.rankwidth(&g3);
             let sc = out.rankwidth_score(&g3);
             (valid, nodes, cache, w, sc)
-        })
+        };
+        let first = guarded(|| one(&mut an));
+        let second = if first.is_ok() {
+            an.set_iterations(rerun_iters);
+            Some(guarded(|| one(&mut an)))
+        } else {
+            None
+        };
+        (first, second)
     });
+    let mut emit_one = |res: Result<(bool, Value, Value, usize, usize), String>, pj: &Value, rerun: bool, tr: &mut Tr, c: &mut Counts| match res {
+        Err(msg) => {
+            c.panics += 1;
+            tr.emit(json!({"k": "anneal", "params": pj, "res": "panic", "msg": msg, "tags": tags, "rerun": rerun}));
+        }
+        Ok((valid, nodes, cache, w, sc)) => {
+            let mut e = json!({"k": "anneal", "params": pj, "init_readback_same": readback_same, "res": "ok", "valid": valid,
+                               "init_width": init_width.map(|x| x as i64).unwrap_or(-1),
+                               "final_width": w, "final_score": sc, "init_nodes": init_nodes, "nodes": nodes, "cache": cache, "tags": tags, "rerun": rerun});
+            if !rerun {
+                e["get"] = get.clone();
+            }
+            tr.emit(e);
+        }
+    };
     match r {
         None => {
             c.timeouts += 1;
             tr.emit(json!({"k": "anneal", "params": pj, "res": "timeout", "tags": tags}));
         }
-        Some(Err(msg)) => {
-            c.panics += 1;
-            tr.emit(json!({"k": "anneal", "params": pj, "res": "panic", "msg": msg, "tags": tags}));
-        }
-        Some(Ok((valid, nodes, cache, w, sc))) => {
-            tr.emit(json!({"k": "anneal", "params": pj, "get": get, "init_readback_same": readback_same, "res": "ok", "valid": valid,
-                           "init_width": init_width.map(|x| x as i64).unwrap_or(-1),
-                           "final_width": w, "final_score": sc, "init_nodes": init_nodes, "nodes": nodes, "cache": cache, "tags": tags}));
+        Some((first, second)) => {
+            emit_one(first, &pj, false, tr, c);
+            if let Some(sec) = second {
+                let mut pj2 = pj.clone();
+                pj2["iters"] = json!(rerun_iters);
+                c.anneals += 1;
+                emit_one(sec, &pj2, true, tr, c);
+            }
         }
     }
 }
